@@ -113,7 +113,7 @@ def run_shard(ctx):
             case = {"gen": "adjacency", "ddl": GS.G.script(stmts), "mode": r.choice(MODES), "entity_kinds": [GS.entity_kind(k1), GS.entity_kind(k2), GS.entity_kind(k1)]}
             check_case(ctx, case)
             ctx.obs_sets["adjacent_kind_pairs"].add(GS.entity_kind(k1) + ">" + GS.entity_kind(k2))
-    for j in range(ctx.budget(500, 15000)):
+    for j in range(ctx.budget(500, 7000)):
         s = GS.gen_mixed(rng, n=rng.randint(1, 9), with_comments=0.3)
         modes = MODES if ctx.tier == "thorough" else rng.sample(MODES, 4)
         for mode in modes:
